@@ -44,15 +44,16 @@ PicOf(e) == [w |-> e.w, h |-> e.h, tr |-> e.hdr.tr, pt |-> e.hdr.pt, q |-> e.hdr
              y |-> e.y, cb |-> e.cb, cr |-> e.cr]
 ProbeAt(p) ==
     LET r == 8 * Len(src') - p IN
-    IF r >= 24 THEN <<24, BitsAt(BitsOfBytes(SubSeq(src', (p \div 8) + 1, (p \div 8) + 4)), (p % 8) + 1, 24)>>
+    IF r >= 24 THEN <<24, BitsAt(BitsOfBytes(SubSeq(src', (p \div 8) + 1, Min2((p \div 8) + 4, Len(src')))), (p % 8) + 1, 24)>>
     ELSE IF r >= 1 THEN LET wd == IF r >= 16 THEN 16 ELSE IF r >= 8 THEN 8 ELSE IF r >= 4 THEN 4 ELSE IF r >= 2 THEN 2 ELSE 1 IN
          <<wd, BitsAt(BitsOfBytes(SubSeq(src', (p \div 8) + 1, Len(src'))), (p % 8) + 1, wd)>>
     ELSE <<0, 0>>
 (* reference-management observation exposed by the hook *)
 ExpKeys(lp, rp) == {t \in {lp.tr, rp.tr} : t >= 0}
-StateObsOk(lp, rp) ==
+StateObsOk(lp, rp) ==       \* the store is pruned to the last and reference pictures and holds the reference
     /\ E.last = lp.tr /\ E.ref = rp.tr
-    /\ {E.keys[i] : i \in 1..Len(E.keys)} = ExpKeys(lp, rp)
+    /\ {E.keys[i] : i \in 1..Len(E.keys)} \subseteq ExpKeys(lp, rp)
+    /\ (rp.tr >= 0 => \E i \in 1..Len(E.keys) : E.keys[i] = rp.tr)
 (* the planes reported for get_last_picture() equal lp *)
 LastObsOk(lp) ==
     IF lp.w = 0 THEN E.has_last = FALSE
@@ -63,10 +64,12 @@ LastObsOk(lp) ==
 (* ---------------------------------------------------------------- new / cleanup / newreader *)
 New ==
     /\ phase = 0 /\ E.op = "new"
+    /\ IF E.ret = "ok" THEN TRUE ELSE Diag("HARNESS", "driver-op-failed", "harness", E.ret)
     /\ lastPic' = NoPic /\ refPic' = NoPic /\ src' = <<>> /\ pos' = 0 /\ posKnown' = TRUE /\ sor' = E.sor /\ dcoll' = FALSE
     /\ NextLine
 NewReader ==
     /\ phase = 0 /\ E.op = "newreader"
+    /\ IF E.ret = "ok" THEN TRUE ELSE Diag("HARNESS", "driver-op-failed", "harness", E.ret)
     /\ src' = <<>> /\ pos' = 0 /\ posKnown' = TRUE /\ KeepDecoder /\ NextLine
 Cleanup ==
     /\ phase = 0 /\ E.op = "cleanup"
@@ -79,11 +82,14 @@ Cleanup ==
     /\ UNCHANGED <<pos, posKnown>> /\ KeepDecoder /\ NextLine
 
 (* ---------------------------------------------------------------- decode: start *)
-HasPic == Has("pic")
+HasPic == Has("pic") /\ ~Has("opaque")      \* "opaque": the bytes are not claimed to be a valid picture
 P == E.pic
 D == Dims(P)
 PicStart == 8 * Len(src)        \* the picture's bytes start at the next byte boundary of the stream
-ExpectOk == P.pt = "I" \/ (refPic.w = D[1] /\ refPic.h = D[2])
+(* a picture needs prediction if some macroblock is predicted, not coded, or missing (early end of data) *)
+NeedsRef == \/ Len(RealMbs(P)) < NMb(P)
+            \/ \E i \in 1..Len(P.mbs) : P.mbs[i].k = "skip" \/ (P.mbs[i].k = "mb" /\ ~IsIntraT(P.mbs[i].t))
+ExpectOk == P.pt = "I" \/ ~NeedsRef \/ (refPic.w = D[1] /\ refPic.h = D[2])
 (* after a rejected call nothing may have changed *)
 UnchangedOk ==
     /\ StateObsOk(lastPic, refPic) /\ LastObsOk(lastPic)
@@ -109,7 +115,9 @@ DecodeStart ==
        ELSE IF ~HasPic
        THEN \* opaque input: any outcome is allowed, but it must be consistent
             IF RetClass = "err" THEN RejectedStep("opaque-err")
-            ELSE /\ IF ~(E.has_last /\ Len(E.y) = E.w * E.h /\ Len(E.cb) = ChW(E.w) * ChH(E.h) /\ Len(E.cr) = Len(E.cb)
+            ELSE /\ IF Has("expect") /\ E.expect = "err"
+                    THEN Diag("IMPL", "accepted-invalid-input", "accepted-" \o E.why, [why |-> E.why])
+                    ELSE IF ~(E.has_last /\ Len(E.y) = E.w * E.h /\ Len(E.cb) = ChW(E.w) * ChH(E.h) /\ Len(E.cr) = Len(E.cb)
                          /\ E.cspr = ChW(E.w) /\ E.last = E.hdr.tr)
                     THEN Diag("IMPL", "decoded-picture-shape", "decoded-picture-shape", [w |-> E.w, h |-> E.h, ylen |-> Len(E.y), clen |-> Len(E.cb), cspr |-> E.cspr])
                     ELSE LET np == PicOf(E)
@@ -182,7 +190,8 @@ BadCb == SelectInSeq([k \in 1..(ChW(W) * ChH(H)) |->
             ~InRange(E.cb[k], ChromaRange(refPic.cb, 5, (k - 1) % ChW(W), (k - 1) \div ChW(W)))], LAMBDA t : t)
 BadCr == SelectInSeq([k \in 1..(ChW(W) * ChH(H)) |->
             ~InRange(E.cr[k], ChromaRange(refPic.cr, 6, (k - 1) % ChW(W), (k - 1) \div ChW(W)))], LAMBDA t : t)
-SampleSig(i) == "recon-" \o P.pt \o "-picture-" \o kinds[i] \o "-macroblock" \o (IF dcoll THEN "-after-disposable-with-reference-tr" ELSE "")
+SampleSig(i) == IF dcoll THEN "reference-overwritten-by-disposable-picture-with-same-tr"
+                ELSE "recon-" \o P.pt \o "-picture-" \o kinds[i] \o "-macroblock"
 NewRef(np) == IF P.pt = "D" THEN refPic ELSE np
 Compare ==
     /\ phase = 4
